@@ -7,9 +7,12 @@ Codes == 0..40 \cup {100, 255, 256, 65535, 65536, 2147483646, 2147483647}
 Durs == {1, 9, 999, 1000, 1001, 9999999, 10000000, 10000001, 99999999, 100000000, 999999999, 1000000000,
          1000000001, 2147483647, 59999999, 60000000, 123456789, 987654321, 19999999, 1999999999}
 DecIn == {37, 52, 49, 71, 255, 65}     \* '%' '4' '1' 'G' 0xFF 'A'
+Dec3 == {37, 52, 71}
 DecStrs == {<<>>} \cup {<<a>> : a \in DecIn} \cup {<<a, b>> : a \in DecIn, b \in DecIn}
            \cup {<<a, b, c>> : a \in DecIn, b \in DecIn, c \in DecIn}
            \cup {<<a, b, c, d>> : a \in DecIn, b \in DecIn, c \in DecIn, d \in DecIn}
+           \cup {<<a, b, c, d, e>> : a \in Dec3, b \in Dec3, c \in Dec3, d \in Dec3, e \in Dec3}
+           \cup {<<a, b, c, d, e, f>> : a \in Dec3, b \in Dec3, c \in Dec3, d \in Dec3, e \in Dec3, f \in Dec3}
 Parse(t, f, n) == [op |-> "parse", text |-> t, form |-> f, n |-> n]
 ParseVectors ==
   { Parse(CodeNames[i], "name", i) : i \in 1..16 }
